@@ -1,0 +1,65 @@
+//go:build verif
+
+package transport
+
+// Contracts for property C35 (closing an agent connection always terminates
+// the agent): the termination escalation of (*Stream).Close. Comment-only
+// file: compiled only under the "verif" build tag, contains no code. The
+// "//@" lines are read by govc.
+
+// The fields of a Stream are written only by this package (by NewStream and
+// SetTerminationDelay); a timer's channel field is set when the timer is
+// created and never changes.
+//@ private Stream
+//@ immutable time.Timer
+
+// Ghost maps maintained by govc at every channel operation the verified
+// function itself executes (see govc/GUIDE.md): completed receives that
+// delivered a value / that found the channel closed, sends, closes, last
+// value sent / received.
+//@ ghost chsends map[int]int
+//@ ghost chrecvs map[int]int
+//@ ghost chrecvsclosed map[int]int
+//@ ghost chcloses map[int]int
+//@ ghost chlast map[int]int
+//@ ghost chlastrecv map[int]int
+
+// waitsdone(ch): receive operations completed on ch so far.
+//@ spec waitsdone(ch) int = chrecvs[ch] + chrecvsclosed[ch]
+
+// The goroutine started by Close: it calls Wait on the stream's process and
+// sends exactly Wait's result, once, on the wait-result channel; it never
+// closes a channel.
+//@ func (*Stream).Close$1
+//@   at call (*Cmd).Wait assert[waiter] arg0 == s.process
+//@   at call (*Cmd).Wait let waitErr = result
+//@   at call send assert[waiter] arg0 == waitResults && arg1 == waitErr && chsends[waitResults] == old(chsends)[waitResults]
+//@   ensures[waiter] chsends[waitResults] == old(chsends)[waitResults] + 1
+//@   at call close assert[noclose] false
+
+// Close:
+//   waited   every return is preceded, on its path, by exactly one completed
+//            receive on the wait-result channel (the channel only the waiting
+//            goroutine sends on, and only process.Wait's result): Close
+//            returns only after process.Wait has returned; when that receive
+//            delivered a value, Close returns that value
+//   order    the escalation: standard input is closed only after the first
+//            timer wait elapsed without a wait result; SIGTERM is sent (to the
+//            stream's process) only after standard input was closed and a
+//            second timer wait elapsed without a result; Kill only after
+//            that and a third timer wait without a result; each step is
+//            followed by a wait (the next timer wait or the final,
+//            unconditional receive on the wait-result channel)
+//   noclose  Close closes no channel (a receive on the wait-result channel
+//            can complete only by the goroutine's send)
+//@ func (*Stream).Close
+//@   requires[ctl] s != nil
+//@   at call time.NewTimer let timerC = result.C
+//@   ensures[waited] waitsdone(waitResults) == old(chrecvs)[waitResults] + old(chrecvsclosed)[waitResults] + 1
+//@   ensures[waited] chrecvs[waitResults] > old(chrecvs)[waitResults] ==> result == chlastrecv[waitResults]
+//@   at call Closer.Close assert[order] arg0 == s.standardInput && waitsdone(timerC) == old(chrecvs)[timerC] + old(chrecvsclosed)[timerC] + 1 && waitsdone(waitResults) == old(chrecvs)[waitResults] + old(chrecvsclosed)[waitResults]
+//@   at call Closer.Close let stdinClosed = true
+//@   at call (*Process).Signal assert[order] stdinClosed && arg0 == s.process.Process && arg1 == box(syscall.SIGTERM) && waitsdone(timerC) == old(chrecvs)[timerC] + old(chrecvsclosed)[timerC] + 2 && waitsdone(waitResults) == old(chrecvs)[waitResults] + old(chrecvsclosed)[waitResults]
+//@   at call (*Process).Signal let termSent = true
+//@   at call (*Process).Kill assert[order] stdinClosed && termSent && arg0 == s.process.Process && waitsdone(timerC) == old(chrecvs)[timerC] + old(chrecvsclosed)[timerC] + 3 && waitsdone(waitResults) == old(chrecvs)[waitResults] + old(chrecvsclosed)[waitResults]
+//@   at call close assert[noclose] false
